@@ -4,6 +4,7 @@ import (
 	"fmt"
 	"regexp"
 	"sort"
+	"strconv"
 	"strings"
 
 	"verif/harness/core"
@@ -35,6 +36,10 @@ func evalC01(c *core.Ctx, e *eco.Eco, op string, args []string) []core.Violation
 	var out []core.Violation
 	if e == nil || len(args) == 0 {
 		return nil
+	}
+	if op == "volume" && len(args) >= 2 {
+		v, _ := strconv.Atoi(args[1])
+		return volumeRun(c, c.NewW(), e, nil, nil, nil, args[0], v)
 	}
 	for len(args) < 3 {
 		args = append(args, args[len(args)-1])
@@ -111,6 +116,13 @@ func runC01(c *core.Ctx, ck *Check) {
 			jobs = append(jobs, job{e, k})
 		}
 	}
+	// state that builds up (volume.go): V distinct versions are parsed and kept, then the laws are checked on objects
+	// parsed far apart and on the objects parsed before the volume
+	c.Parallel(len(ecos), func(w *core.W, i int) {
+		for _, v := range volumeRun(c, w, ecos[i], nil, nil, nil, "c01", c.Scale(560000, 2200000)) {
+			w.Report(v)
+		}
+	})
 	c.Parallel(len(jobs), func(w *core.W, i int) {
 		j := jobs[i]
 		r := c.Rand("pool", j.e.Name, itoa(j.k))
